@@ -344,6 +344,8 @@ pub fn oversize_cfgs() -> Vec<Cfg> {
         Cfg::Fb { kind: FbKind::Payload, sender: 1, media: 2, fci: Fci::Rpsi { pt: 1, bits: vec![0xff; total - 14], overrun: 0 }, padding: 0 },
         Cfg::Fb { kind: FbKind::Payload, sender: 1, media: 2, fci: Fci::Sli((0..(total - 12) / 4).map(|i| ((i & 0x1fff) as u16, 1, 0)).collect()), padding: 0 },
         Cfg::Sdes { chunks: vec![Chunk { ssrc: 9, items }], padding: 0 },
+        // one FIR entry more than fits (32 767 entries, 65 537 words): the one builder that has a rule for this
+        Cfg::Fb { kind: FbKind::Payload, sender: 1, media: 2, fci: Fci::Fir((0..32_767u32).map(|i| (i.wrapping_mul(0x0001_0003), i as u8)).collect()), padding: 0 },
     ]
 }
 
